@@ -148,6 +148,14 @@ class Gen:
             return ["bin", self.pick(["+", "-", "*", "/"]), self.num_(d - 1), self.num_(d - 1)]
         if k < 0.7:
             return ["bin", "/", self.int_(d - 1), self.int_(d - 1)]
+        if k < 0.8:
+            # sums of floats whose result depends on HOW they are added up (the sum filter is
+            # documented as the sum of the items; Python's sum() is the reference)
+            items = r.choice([[0.1, 0.2, 0.3], [0.1] * 10, [1e16, 1.0, -1e16], [0.1, 0.7, 0.2], [1.1, 2.2, 3.3]])
+            lst = ["list", [C(x) if x >= 0 else ["un", "-", C(-x)] for x in items]]
+            if r.random() < 0.4:
+                lst = ["bin", "+", lst, ["list", [N("f1")]]]
+            return ["filter", lst, "sum", [], []]
         return N("f1")
 
     # ---------------------------------------------------------- strings
